@@ -25,13 +25,34 @@ structure EInfo where
   sgHead : Option QN := none        -- `e.substitution_group`
   direct : List QN := []            -- names of `maps.substitution_groups.get(e.name, ())`
   subs : List (QN × Nat) := []      -- `e.iter_substitutes()`: (name, type identity), in order
+  headOk : Bool := true             -- `e.parent is None or e.ref is not None` (global declaration or reference)
   deriving Repr, Inhabited
+
+/-- Which of the proposed repairs of `check_model` the tree under test contains (detected by the harness by
+    replaying one witness per repair on the real code).  All `false` = the pinned algorithm. -/
+structure Fixes where
+  /-- notes/fixes/C15-shared-group-occurrences.patch: no `pe is e` shortcut; "same parent" = same occurrence
+      of the parent (the two paths are the same objects position by position) -/
+  shared : Bool := false
+  /-- notes/fixes/C15-repeated-sequence.patch, models.py: the `pe.is_univocal()` shortcut only when the
+      parent sequence has `maxOccurs = 1` -/
+  repSeq : Bool := false
+  /-- notes/fixes/C15-repeated-sequence.patch, elements.py: XSD 1.0 `is_overlap` through a substitution-group
+      head only when the head side is a global declaration or a reference -/
+  head10 : Bool := false
+  /-- notes/fixes/C15-edc-substitution-xsd10.patch: XSD 1.0 `is_consistent` walks `iter_substitutes()` -/
+  edc10 : Bool := false
+  deriving Repr, Inhabited, DecidableEq
+
+/-- every proposed repair applied (notes/fixes/C15-all-combined.patch) -/
+def Fixes.all : Fixes := { shared := true, repSeq := true, head10 := true, edc10 := true }
 
 structure Ctx where
   A : Arena
   einfo : Array (Option EInfo)
   defined : List QN                 -- names of `maps.elements` (for `##defined`)
   v11 : Bool
+  fx : Fixes := {}
   deriving Inhabited
 
 section
@@ -74,6 +95,9 @@ def Ctx.overlapEE (s o : Nat) : Bool :=
   if M.v11 then
     a.name == b.name || b.subs.any (fun x => a.name == x.1) ||
       a.subs.any fun e => b.name == e.1 || b.subs.any fun x => x.1 == e.1
+  else if M.fx.head10 then
+    a.name == b.name ||
+      (if b.sgHead == some a.name then a.headOk else if some b.name == a.sgHead then b.headOk else false)
   else
     a.name == b.name || b.sgHead == some a.name || some b.name == a.sgHead
 
@@ -99,7 +123,7 @@ def Ctx.consistent (e pe : Nat) : Bool :=
   else
     let a := M.info e
     let b := M.info pe
-    if !M.v11 then a.name != b.name || a.ty == b.ty
+    if !M.v11 && !M.fx.edc10 then a.name != b.name || a.ty == b.ty
     else if a.name == b.name then a.ty == b.ty
     else match a.subs.find? (fun x => x.1 == b.name) with
       | some e1 => e1.2 == b.ty
@@ -198,14 +222,14 @@ structure Acc where
 /-- models.py:145-156: the same-parent shortcuts.  `.ok none` = `continue`, `.ok (some acc)` = go on
     to `distinguishable_paths`, `.error` = exception -/
 def Ctx.stage1 (e : Nat) (cp : List Nat) (pe : Nat) (pp : List Nat) (acc : Acc) : Except CMErr (Option Acc) :=
-  let sameParent := pp.getLast? == cp.getLast? && pp.getLast?.isSome
+  let sameParent := if M.fx.shared then pp == cp else pp.getLast? == cp.getLast? && pp.getLast?.isSome
   let parentKind := (M.node (pp.getLast?.getD 0)).kind
   if sameParent then
     if parentKind == .all || parentKind == .choice then
       if M.v11 && M.isAny pe && !M.isAny e then .ok (some { acc with precs := acc.precs ++ [(pe, e)] })
       else if M.v11 && M.isAny e && !M.isAny pe then .ok (some { acc with precs := acc.precs ++ [(e, pe)] })
       else .error (.sameGroup pe e)
-    else if M.univocal pe then .ok none
+    else if M.univocal pe && (!M.fx.repSeq || (M.node (pp.getLast?.getD 0)).hi == some 1) then .ok none
     else .ok (some acc)
   else .ok (some acc)
 
@@ -231,7 +255,7 @@ def Ctx.against (e : Nat) (cp : List Nat) : List Entry → Acc → Acc × Option
   | [], acc => (acc, none)
   | en :: rest, acc =>
     if !M.consistent e en.leaf then (acc, some (.edc e en.leaf))
-    else if en.leaf == e || !M.overlap en.leaf e then Ctx.against e cp rest acc
+    else if (!M.fx.shared && en.leaf == e) || !M.overlap en.leaf e then Ctx.against e cp rest acc
     else match M.upaStep e cp en.leaf en.path acc with
       | (acc, some err) => (acc, some err)
       | (acc, none) => Ctx.against e cp rest acc
@@ -279,9 +303,10 @@ def Ctx.accepts (p : Particle) : Bool := (M.checkModel p).err.isNone
 end
 
 /-- the `Ctx` of a particle tree with the given per-element information -/
-def mkCtx (v11 : Bool) (n : Nat) (nodes : List (Nat × Node)) (infos : List (Nat × EInfo)) (defined : List QN) : Ctx :=
+def mkCtx (v11 : Bool) (n : Nat) (nodes : List (Nat × Node)) (infos : List (Nat × EInfo)) (defined : List QN)
+    (fx : Fixes := {}) : Ctx :=
   { A := mkArena n nodes
     einfo := infos.foldl (fun a (i, x) => a.setIfInBounds i (some x)) (Array.replicate n none)
-    defined, v11 }
+    defined, v11, fx }
 
 end XsVerif.CM
